@@ -34,7 +34,9 @@ CONSTANTS
     Machine,        \* "xfer" | "snap" | "rot" | "pstore"
     CIDS,           \* abstract CIDs, e.g. {"c1","c2","c3"}
     VALS,           \* abstract pin values, e.g. {"vA","vB"}
-    MAXIDX,         \* highest backup index modelled (data.old.0 .. data.old.MAXIDX)
+    MAXIDX,         \* highest backup index modelled (data.old.0 .. data.old.MAXIDX); two-digit in the wide configs
+    INITS,          \* rot: the sets of backup indices that may exist initially (subsets of 0..MAXIDX)
+    ROTOPS,         \* rot: which operations occur ("save", "clean", "mklogs")
     KEEPS,          \* retention values N (raft Config.BackupsRotate)
     MAXOPS,         \* rot: number of operations per behaviour
     MAXCLEAN,       \* rot: number of snapshot-holding cleans per behaviour
@@ -111,7 +113,7 @@ NoSnap == "nosnap"
 HasSnap(c) == c # Absent /\ c # NoSnap
 
 \* dataBackupHelper.listBackups: data.old.0, .1, ... while they exist, at most N
-RunLen(d, N) == Cardinality({k \in 1..Min(N, MAXIDX + 1) : \A j \in 1..k : d.old[j] # Absent})
+RunLen(d, N) == Cardinality({k \in 1..Min(N, Len(d.old)) : \A j \in 1..k : d.old[j] # Absent})
 
 \* dataBackupHelper.makeBackup (the data folder exists)
 MakeBackup(d, N) ==
@@ -120,7 +122,7 @@ MakeBackup(d, N) ==
         \* its last name does not exist at this point
         L == IF k >= N THEN k ELSE k + 1
     IN [data |-> Absent,
-        old  |-> [j \in 1..MAXIDX + 1 |->
+        old  |-> [j \in 1..Len(d.old) |->
                     IF j = 1 THEN d.data             \* data -> data.old.0
                     ELSE IF j <= L THEN d.old[j - 1]  \* i-1 -> i
                     ELSE d.old[j]]]                  \* not in the list: untouched
@@ -134,8 +136,8 @@ CleanDirs(d, N) ==
 SaveDirs(d, N, m) ==
     LET d1 == IF HasSnap(d.data) THEN CleanDirs(d, N) ELSE d IN [d1 EXCEPT !.data = m]
 
-Backups(d)  == {d.old[j] : j \in 1..MAXIDX + 1} \ {Absent}
-Window(d, N) == {j \in 1..Min(N, MAXIDX + 1) : d.old[j] # Absent}
+Backups(d)  == {d.old[j] : j \in 1..Len(d.old)} \ {Absent}
+Window(d, N) == {j \in 1..Min(N, Len(d.old)) : d.old[j] # Absent}
 
 \* property of one backup-making step from d to e (e.data is checked by the caller):
 BackupGood(d, N, e) ==
@@ -145,7 +147,8 @@ BackupGood(d, N, e) ==
            (IF Window(d, N) = {} THEN {} ELSE {d.old[MaxOf(Window(d, N))]})
     /\ Cardinality(Backups(d) \ Backups(e)) <= 1
     /\ (RunLen(d, N) < N => \A j \in 1..RunLen(d, N) : d.old[j] \in Backups(e))  \* ... and only once N is reached
-    /\ \A j \in 1..MAXIDX + 1 : j > N => e.old[j] \in {Absent, d.old[j]}  \* at most N: nothing new beyond index N-1
+    /\ Len(e.old) = Len(d.old)
+    /\ \A j \in 1..Len(d.old) : j > N => e.old[j] \in {Absent, d.old[j]}  \* at most N: nothing new beyond index N-1
 
 CleanGood(d, N, e) ==
     HasSnap(d.data) => (e.data = Absent /\ BackupGood(d, N, e))
@@ -371,12 +374,12 @@ PeerLaw    == peer.up => SnapGood(disk.ps, peer.ps)
 Marker(i) == "s" \o ToString(i)
 RInit ==
     /\ keep \in KEEPS
-    /\ \E S \in SUBSET (0..MAXIDX) :
+    /\ \E S \in INITS :
           dirs = [data |-> Absent, old |-> [j \in 1..MAXIDX + 1 |-> IF (j - 1) \in S THEN "b" \o ToString(j - 1) ELSE Absent]]
     /\ nsave = 0 /\ nclean = 0 /\ nops = 0
 RotSave ==
     /\ Machine = "rot" /\ UNCHANGED <<xvars, svars, pvars, cvars>>
-    /\ nops < MAXOPS
+    /\ "save" \in ROTOPS /\ nops < MAXOPS
     /\ HasSnap(dirs.data) => nclean < MAXCLEAN
     /\ dirs' = SaveDirs(dirs, keep, Marker(nsave + 1))
     /\ nsave' = nsave + 1 /\ nops' = nops + 1
@@ -384,7 +387,7 @@ RotSave ==
     /\ UNCHANGED keep
 RotClean ==
     /\ Machine = "rot" /\ UNCHANGED <<xvars, svars, pvars, cvars>>
-    /\ nops < MAXOPS
+    /\ "clean" \in ROTOPS /\ nops < MAXOPS
     /\ HasSnap(dirs.data) => nclean < MAXCLEAN
     /\ dirs' = CleanDirs(dirs, keep)
     /\ nops' = nops + 1
@@ -392,7 +395,7 @@ RotClean ==
     /\ UNCHANGED <<keep, nsave>>
 RotMkLogs ==                      \* a data folder with Raft logs but no snapshot appears
     /\ Machine = "rot" /\ UNCHANGED <<xvars, svars, pvars, cvars>>
-    /\ nops < MAXOPS
+    /\ "mklogs" \in ROTOPS /\ nops < MAXOPS
     /\ dirs.data = Absent
     /\ dirs' = [dirs EXCEPT !.data = NoSnap]
     /\ nops' = nops + 1
